@@ -9,6 +9,8 @@ include!("repo_mods.rs");
 mod driver;
 mod lexglue;
 mod props;
+mod srv;
+mod walk;
 
 use driver::*;
 
